@@ -339,6 +339,24 @@ def input_bursts(check, tier):
     s.nontrivial = set(range(s.evaluations))
     s.samples = cases[:2]
     s.done()
+    # bytes handed back with unget_bytes (e.g. by a cursor query) join the stream where they belong: behind what is already buffered
+    import itertools as _it
+    ucases = [c for c in C8.small_cases(tier) if any(op[0] == "unget" for op in c["ops"]) and c.get("transport") == "pipe"]
+    ucases = ucases[:: max(1, len(ucases) // 1500)]
+    s = Suite(check, "C03.input_unget", "short histories of the real Input over a pipe that contain unget_bytes (bytes handed back while others "
+              "are still buffered): every byte comes back exactly once and in stream order (rig and reference of C08; the listed C08 findings "
+              "- a read ending inside a character, key prefix + non-ASCII byte - are not judged here)", bound="<= 3 operations", exhaustive=False)
+    per = max(1, len(ucases) // 28)
+    for n, n_req, out in pmap(C8._batch_list, [ucases[i:i + per] for i in range(0, len(ucases), per)]):
+        s.evaluations += n
+        for kind, case, clause, detail, extra in out:
+            if kind == "harness" or extra.get("read_ended_mid_char") or extra.get("esc_then_nonascii") or not clause.startswith("C08.bytes"):
+                continue
+            s.fail("C03.input." + clause.split(".", 1)[-1], dict(case, **{k: v for k, v in extra.items() if isinstance(v, (str, int, bool, type(None)))}), detail,
+                   replay={"kind": "suite", "module": "props.C08", "case": case})
+    s.nontrivial = set(range(s.evaluations))
+    s.samples = ucases[:2]
+    s.done()
 
 
 def attach_probes():
